@@ -137,6 +137,13 @@ def gen_cases(ctx):
                     l["tearDownFaults"] = [[0, 2]]
         o = worlds.gen_opts(rng, allow=("repeat", "shuffle", "buffer"))
         o["stopOnError"] = True
+        if i % 5 == 2:
+            # -j N: the layers run side by side, each in its own process; a slow layer is still running when another one
+            # records the first failure - whatever it has set up is torn down all the same
+            o["processes"] = rng.choice([2, 3])
+            slow = [t for t in w["tests"] if t["kind"] == "pass" and not t.get("doctest")]
+            if slow:
+                rng.choice(slow)["setUp"]["sleep"] = 1.5
         if i % 4 == 0:
             # directed: independent layers, the first cannot be torn down, a later one (run in a child) fails
             w = worlds.gen_world(rng, n_layers=rng.choice([3, 4]), tests_per_layer=(1, 3), kinds=["pass"], p_fault=0.0,
